@@ -81,6 +81,35 @@ fn local_reference(input: &[u8], cfg: &CfgBits) -> Option<Vec<u8>> {
     .flatten()
 }
 
+/// Does any function body of `wasm` contain an instruction behind an unconditional transfer of control
+/// (`unreachable`, `br`, `br_table`, `return`, `return_call*`) in the same block?  (walrus's parser drops those.)
+/// Unreadable bytes count as "yes" (no conclusion is drawn then).
+fn has_dead_code(wasm: &[u8]) -> bool {
+    use wasmparser::Operator as O;
+    for p in wasmparser::Parser::new(0).parse_all(wasm) {
+        let Ok(p) = p else { return true };
+        if let wasmparser::Payload::CodeSectionEntry(body) = p {
+            let Ok(mut ops) = body.get_operators_reader() else { return true };
+            let mut outer: Vec<bool> = Vec::new();
+            let mut dead = false;
+            while !ops.eof() {
+                let Ok(op) = ops.read() else { return true };
+                match op {
+                    O::End => dead = outer.pop().unwrap_or(false),
+                    O::Else => dead = false,
+                    _ if dead => return true,
+                    O::Block { .. } | O::Loop { .. } | O::If { .. } => {
+                        outer.push(false);
+                    }
+                    O::Unreachable | O::Br { .. } | O::BrTable { .. } | O::Return | O::ReturnCall { .. } | O::ReturnCallIndirect { .. } => dead = true,
+                    _ => {}
+                }
+            }
+        }
+    }
+    false
+}
+
 fn draw_ops(rng: &mut Rng, same_cfg: &CfgBits, max_len: u64) -> Vec<Op> {
     let n = if rng.chance(3, 4) { rng.range(1, 4.min(max_len)) } else { rng.range(1, max_len) };
     let mut ops = vec![];
@@ -159,6 +188,13 @@ impl Prop for C08 {
                 ops.push(Op::Edit(super::c02::draw_edit(rng)));
             }
             ops.push(Op::Emit);
+            // a third of the edit histories end with a re-parse of the edited module's output and one more emit:
+            // the fixpoint clause for modules that were BUILT through the API (such a history is judged by
+            // repeatability and the fixpoint; `emit_alters_nothing` needs a reparse-free history)
+            if rng.chance(1, 3) {
+                ops.push(Op::Reparse { cfg: cfg.clone() });
+                ops.push(Op::Emit);
+            }
         }
         if cfg.dwarf && synth {
             // the fixpoint clause is not claimed through walrus's own DWARF output (documented as experimental)
@@ -333,6 +369,19 @@ impl Prop for C08 {
                     }
                     // the new value was parsed from walrus's own output: it must emit exactly those bytes
                     expect = Some((emitted.clone(), "reparse_fixpoint"));
+                    // ... except where the output came from an API EDIT and the re-parse legitimately normalises it:
+                    // the synthetic-names switch names the anonymous items the edit built, and walrus's parser
+                    // drops unreachable instructions (an edit can put instructions behind a terminator)
+                    let edited_before = case.ops[..i.min(case.ops.len())].iter().any(|o| matches!(o, Op::Edit(_)));
+                    // ... and every parse records walrus itself in the producers section, replacing a `walrus` entry an
+                    // edit put there (C14's subject)
+                    let producers_edited = case.ops[..i.min(case.ops.len())].iter().any(|o| matches!(o, Op::Edit(Edit::Producers { .. })));
+                    if edited_before && (case.cfg.synthetic || producers_edited || has_dead_code(emitted)) {
+                        out.hit("reparse_after_edit_not_comparable");
+                        expect = None;
+                    } else if edited_before {
+                        out.hit("reparse_fixpoint_after_api_edit");
+                    }
                     if first_mutation.map(|fm| i > fm).unwrap_or(false) {
                         out.hit("reparse_fixpoint_after_gc_or_edit");
                     }
